@@ -802,11 +802,16 @@ pub fn text_corpus(r: &mut Rng, sz: &Sizes, thorough: bool) -> Vec<String> {
             texts.push(format!("[{body}]"));
             texts.push(format!("{{\"k\":[{body}],\"z\":{{\"deep\":[[[1]]]}}}}"));
         }
-        // siblings first, then real nesting close to the limit
-        let sib = vec!["[]"; n].join(",");
-        for depth in [200usize, 254, 255, 256] {
-            texts.push(format!("[{sib},{}1{}]", "[".repeat(depth), "]".repeat(depth)));
-            texts.push(format!("[{}1{},{sib}]", "[".repeat(depth), "]".repeat(depth)));
+        // siblings (of either bracket kind) first, then real nesting up to and beyond the limit: closed
+        // brackets neither count towards the limit nor earn extra depth
+        for sibkind in ["[]", "{}", "{\"a\":[]}"] {
+            let sib = vec![sibkind; n].join(",");
+            for depth in [200usize, 254, 255, 256, 257, 300] {
+                texts.push(format!("[{sib},{}1{}]", "[".repeat(depth), "]".repeat(depth)));
+                texts.push(format!("[{}1{},{sib}]", "[".repeat(depth), "]".repeat(depth)));
+                let d2 = depth / 2;
+                texts.push(format!("[{sib},{}1{}]", "{\"a\":[".repeat(d2), "]}".repeat(d2)));
+            }
         }
     }
     texts
